@@ -28,6 +28,10 @@ type Options struct {
 	Cap     int     // capacity of each direction in frames; 0 = unbounded
 	Auto    bool    // release frames as soon as they are sent
 	Log     *tr.Log // event log
+	// Yield, if set, is called after a frame has been put on the carrier and
+	// before Send returns to the library (point "car.sent.<dir>.<kind>"): a
+	// driver can hold the sender there, as a slow transport write would.
+	Yield func(point string, sid int64)
 	// ServerHeader is what the network server end answers as response header
 	// when it is played raw (nil = none).
 	PeerAddr string
@@ -184,6 +188,18 @@ func (c *Carrier) Fail() {
 	c.cond.Broadcast()
 }
 
+// ServerGone ends the network server's side (as when the server process shuts
+// down and aborts its streams): its stream context is cancelled, so its Recv
+// and Send fail and its handler returns; frames already on their way to the
+// client remain deliverable and the client then sees the handler's status.
+func (c *Carrier) ServerGone() {
+	c.mu.Lock()
+	defer c.mu.Unlock()
+	c.emit("car", tr.E{"what": "srvgone"})
+	c.srvCancel()
+	c.cond.Broadcast()
+}
+
 // HandlerReturned records that the network server's handler returned err.
 func (c *Carrier) HandlerReturned(err error) {
 	c.mu.Lock()
@@ -235,20 +251,28 @@ func (c *Carrier) handlerStatus() error {
 // ---- network client end ----------------------------------------------------
 
 func (c *Carrier) cliSend(m proto.Message, desc func(proto.Message) tr.E) error {
+	point, sid, err := c.cliSendLocked(m, desc)
+	if err == nil && point != "" && c.o.Yield != nil {
+		c.o.Yield(point, sid)
+	}
+	return err
+}
+
+func (c *Carrier) cliSendLocked(m proto.Message, desc func(proto.Message) tr.E) (string, int64, error) {
 	c.mu.Lock()
 	defer c.mu.Unlock()
 	for {
 		if err := c.cliCtx.Err(); err != nil {
-			return ctxStatus(err)
+			return "", 0, ctxStatus(err)
 		}
 		if c.failed != nil {
-			return io.EOF
+			return "", 0, io.EOF
 		}
 		if c.handlerEnd || c.cliSawEnd {
-			return io.EOF
+			return "", 0, io.EOF
 		}
 		if c.up.closed {
-			return status.Error(codes.Internal, "SendMsg called after CloseSend")
+			return "", 0, status.Error(codes.Internal, "SendMsg called after CloseSend")
 		}
 		if c.o.Cap == 0 || len(c.up.q) < c.o.Cap {
 			break
@@ -262,13 +286,13 @@ func (c *Carrier) cliSend(m proto.Message, desc func(proto.Message) tr.E) error 
 		c.emit("car", tr.E{"what": "marshalfail", "dir": c.up.name})
 		c.srvCancel()
 		c.cond.Broadcast()
-		return c.failed
+		return "", 0, c.failed
 	}
-	c.enqueue(c.up, b, m, desc)
-	return nil
+	pt, sid := c.enqueue(c.up, b, m, desc)
+	return pt, sid, nil
 }
 
-func (c *Carrier) enqueue(p *pipe, b []byte, m proto.Message, desc func(proto.Message) tr.E) {
+func (c *Carrier) enqueue(p *pipe, b []byte, m proto.Message, desc func(proto.Message) tr.E) (string, int64) {
 	p.q = append(p.q, b)
 	p.sent++
 	e := desc(m)
@@ -281,6 +305,9 @@ func (c *Carrier) enqueue(p *pipe, b []byte, m proto.Message, desc func(proto.Me
 	p.descs = append(p.descs, cp)
 	c.emit("wire.send", e)
 	c.cond.Broadcast()
+	kind, _ := cp["kind"].(string)
+	sid, _ := cp["sid"].(int64)
+	return "car.sent." + p.name + "." + kind, sid
 }
 
 func (c *Carrier) cliRecv(into proto.Message) error {
@@ -372,14 +399,22 @@ func (c *Carrier) cliHeader() (metadata.MD, error) {
 // ---- network server end ----------------------------------------------------
 
 func (c *Carrier) srvSend(m proto.Message, desc func(proto.Message) tr.E) error {
+	point, sid, err := c.srvSendLocked(m, desc)
+	if err == nil && point != "" && c.o.Yield != nil {
+		c.o.Yield(point, sid)
+	}
+	return err
+}
+
+func (c *Carrier) srvSendLocked(m proto.Message, desc func(proto.Message) tr.E) (string, int64, error) {
 	c.mu.Lock()
 	defer c.mu.Unlock()
 	for {
 		if c.failed != nil {
-			return c.failed
+			return "", 0, c.failed
 		}
 		if err := c.srvCtx.Err(); err != nil {
-			return ctxStatus(err)
+			return "", 0, ctxStatus(err)
 		}
 		if c.o.Cap == 0 || len(c.down.q) < c.o.Cap {
 			break
@@ -392,13 +427,13 @@ func (c *Carrier) srvSend(m proto.Message, desc func(proto.Message) tr.E) error 
 		c.emit("car", tr.E{"what": "marshalfail", "dir": c.down.name})
 		c.srvCancel()
 		c.cond.Broadcast()
-		return c.failed
+		return "", 0, c.failed
 	}
 	if !c.hdrReady {
 		c.hdrReady = true
 	}
-	c.enqueue(c.down, b, m, desc)
-	return nil
+	pt, sid := c.enqueue(c.down, b, m, desc)
+	return pt, sid, nil
 }
 
 func (c *Carrier) srvRecv(into proto.Message) error {
